@@ -26,6 +26,8 @@ def to_pamqp(chan, fr):
     if isinstance(s, str):
         s = s.encode()
     if chan == 0:
+        if name in ('NFaultRecv', 'NFaultSend', 'NFaultPoll'):
+            return name
         if name == 'NChClose':
             return spec.Connection.Close(reply_code=num, reply_text='bye',
                                          class_id=0, method_id=0)
@@ -137,7 +139,7 @@ def written_coq(frames):
         if fr.name in ('Basic.Consume', 'Basic.Cancel'):
             s = fr.consumer_tag
             s = s.encode() if isinstance(s, str) else s
-        out.append('{| o_chan := %s; o_name := %s; o_str := %s |}' % (
+        out.append('{| o_chan := %s; o_name := %s; o_str := %s; o_sent := true |}' % (
             coq_nat(ch), nm if ' ' not in nm else '(%s%%nat)' % nm, coq_bytes(s)))
     return coq_list(out)
 
@@ -156,6 +158,7 @@ class Scenario(object):
         self.pub_base = len(self.br.ledger_in)
         self.rt.idle_hooks = [self.on_idle]
         self.delivered = []
+        self.fault_times = []
 
     def on_idle(self):
         self.br.step()          # parse what the client wrote (silent broker)
@@ -165,9 +168,26 @@ class Scenario(object):
             alive = (self.conn._io._running.is_set() and
                      self.conn._io.socket is not None)
             for c, fr in tick:
-                self.br.deliver(c, to_pamqp(c, fr))
+                pf = to_pamqp(c, fr)
+                if pf == 'NFaultRecv':
+                    # the peer goes away: EOF (num 0) or connection reset (num 1)
+                    self.br.drop('eof' if fr[1] == 0 else 'reset')
+                    vrt.pump_all()
+                elif pf == 'NFaultSend':
+                    import errno
+
+                    def broken(data):
+                        raise BrokenPipeError(errno.EPIPE, 'Broken pipe')
+                    self.br.sock.send_script = broken
+                elif pf == 'NFaultPoll':
+                    import errno
+                    self.rt.poll_error = OSError(errno.EBADF, 'Bad file descriptor')
+                    vrt.pump_all()
+                else:
+                    self.br.deliver(c, pf)
                 if alive:
                     self.delivered.append((c, fr))
+                    self.fault_times.append(self.rt.now) if isinstance(pf, str) else None
         vrt.pump_all()
 
     def snapshot(self, c):
@@ -207,6 +227,7 @@ class Scenario(object):
         self.br.step()
         mark = len(self.br.ledger_in)
         self.delivered = []
+        self.latencies = []
         own = len(script)
         self.rt.sleep_count = 0
         self.rt.max_sleeps = 400 + 120 * (len(script) + 1)
@@ -272,16 +293,22 @@ class Scenario(object):
         except Exception as why:
             ec = err_coq(why)
             res = '(RErr %s)' % ec if ec else 'ROther'
+            if ec and 'EConn' in ec and self.fault_times:
+                # virtual time between the transport fault and this exception
+                self.latencies.append(self.rt.now - self.fault_times[0])
         self.br.step()
         written = [(cc, fr) for (_, cc, fr, _) in self.br.ledger_in[mark:]]
         # a request that was never written is never answered
         if not written and op[0] not in ('idle', 'check', 'ack', 'process', 'build'):
             self.script = self.script[:max(0, len(self.script) - own)]
+        late = any(l > 1.0 + 0.02 for l in self.latencies)
+        if self.latencies:
+            self.fault_times = []      # the fault has been reported
         return ('{| ob_res := %s; ob_snap := %s; ob_written := %s; '
-                'ob_delivered := %s |}' % (
+                'ob_delivered := %s; ob_late := %s |}' % (
                     res, self.snapshot(c), written_coq(written),
                     coq_list(['(%s, %s)' % (coq_nat(cc), frame_coq(f))
-                              for cc, f in self.delivered])), res)
+                              for cc, f in self.delivered]), coq_bool(late)), res)
 
     def close(self):
         try:
